@@ -43,6 +43,14 @@ def caps_for(date, params, res, df):
         out.append(("unemployment insurance contribution <= rate x ceiling", "arbeitsl_v_beitr_arbeitnehmer_m", 2 * alv, "_ges_rentenv_beitr_bemess_grenze_m", 0.01))
     except Exception:  # noqa: BLE001
         pass
+    ag = params.get("arbeitsl_geld", {})
+    if "satz_mit_kindern" in ag:
+        out.append(("unemployment benefit <= highest replacement rate x assessment ceiling", "arbeitsl_geld_m", float(ag["satz_mit_kindern"]), "_ges_rentenv_beitr_bemess_grenze_m", 0.01))
+    try:
+        top = float(np.asarray(params["eink_st"]["eink_st_tarif"]["rates"])[0][-1])
+        out.append(("income tax <= top rate x taxable income", "eink_st_ohne_kinderfreib_y_sn", top, "_zu_verst_eink_ohne_kinderfreib_y_sn", 1.0))
+    except Exception:  # noqa: BLE001
+        pass
     eg = params.get("elterngeld", {})
     if "höchstbetrag" in eg:
         cap = float(eg["höchstbetrag"]) + 10 * float(eg.get("mehrlingbonus", 0)) + max(float(eg.get("geschwisterbonus_minimum", 0)), 0.1 * float(eg["höchstbetrag"]))
@@ -56,7 +64,7 @@ def caps_for(date, params, res, df):
 
 def corner_population(date, rnd, tid):
     kinds = list(popgen.CANON)
-    mode = ["zero", "rich", "negative_rent", "old", "many_children", "mixed"][tid % 6]
+    mode = ["zero", "rich", "negative_rent", "old", "many_children", "mixed", "unemployed_high_earner"][tid % 7]
     structs = [popgen.CANON[rnd.choice(kinds)] for _ in range(rnd.choice([1, 2]))]
     prof = {}
     if mode == "zero":
@@ -65,6 +73,9 @@ def corner_population(date, rnd, tid):
         prof = {"bruttolohn_m": lambda i, r, d, rr: 1e7 / 12 if d["alter"] >= 18 else 0.0, "vermögen_bedürft": 1e9, "kapitaleink_brutto_m": 1e6, "eink_selbst_m": 5e5, "elterngeld_nettoeinkommen_vorjahr_m": 1e6, "bruttolohn_vorj_m": 1e6}
     elif mode == "negative_rent":
         prof = {"eink_vermietung_m": lambda i, r, d, rr: rr.choice([-5000.0, -300.0, -1e5]) if d["alter"] >= 18 else 0.0}
+    elif mode == "unemployed_high_earner":
+        prof = {"arbeitssuchend": lambda i, r, d, rr: d["alter"] >= 18, "anwartschaftszeit": True, "sozialv_pflicht_5j": 60.0, "arbeitsstunden_w": 0.0, "bruttolohn_m": 0.0, "m_durchg_alg1_bezug": 0.0,
+                "bruttolohn_vorj_m": lambda i, r, d, rr: rr.choice([3000.0, 7000.0, 20000.0, 1e6]) if d["alter"] >= 18 else 0.0, "rentner": False}
     P = popgen.compose(structs, date, rnd, profile=prof)
     if mode == "old":
         for p in P:
@@ -132,7 +143,7 @@ def run(tier):
     rnd = random.Random(chk.seed * 65537 + 16)
     quick = tier == "quick"
     dates = ["2023-01-01"] + rnd.sample([d for d in DATES if d != "2023-01-01"], 3 if quick else len(DATES) - 1)
-    njobs = 24 if quick else 360
+    njobs = 28 if quick else 420
     outs = pool_map(job, sorted([(dates[t % len(dates)], rnd.randrange(1 << 30), t, str(chk.work)) for t in range(njobs)]))
     seen = set()
     for info in outs:
@@ -151,7 +162,7 @@ def run(tier):
             chk.violation(sig, f"{m['node']}: {clause}" + (f" ({m['cap']})" if "cap" in m else "") + f" on a {info['mode']} population at {info['date']}", {"date": info["date"], "mode": info["mode"], "persons": info["persons"], **m})
         chk.sample({"date": info["date"], "mode": info["mode"], "persons": info["n"], "columns": info["nout"], "caps": info["ncap"]})
     chk.cov["rule"] = (
-        "corner populations in six modes (all incomes zero; 1e7 yearly income with 1e9 wealth; negative rental income; ages 67-100 pensioners; couple with 6-10 children; mixed) over random structures, all nodes with rounding on, at 4 (thorough 10) dates; "
+        "corner populations in seven modes (all incomes zero; 1e7 yearly income with 1e9 wealth; negative rental income; ages 67-100 pensioners; couple with 6-10 children; mixed; unemployed former high earners) over random structures, all nodes with rounding on, at 4 (thorough 10) dates; "
         "every numeric column checked Finite, default targets NonNegative, 6-8 cap relations per run; distinct_nontrivial = distinct (date, mode, population)"
     )
     chk.assumptions += ["caps are a hand-written table of relations (see caps_for); the 'e.g.' list of the statement is covered first", "non-negativity tolerance 1e-9"]
